@@ -77,7 +77,7 @@ func init() {
 			return false
 		}
 		for _, t := range x.InToks {
-			if t.T == "start" && !unsafeName(t.N) && !x.Model.Known(t.N) && inSet(x.Model.Skip, t.N) && !VoidEls[t.N] {
+			if t.T == "start" && !(unsafeName(t.N) && !x.Model.Unsafe) && !x.Model.Known(t.N) && inSet(x.Model.Skip, t.N) && !VoidEls[t.N] {
 				return true
 			}
 		}
@@ -345,9 +345,6 @@ func openStack(toks []Tok) (stack []string, ok bool) {
 
 // C09: well-nested input yields well-nested output (balance form).
 func oracleC09(x *Exec) []Finding {
-	if x.Model.Unsafe {
-		return nil
-	}
 	in, ok := openStack(x.InToks)
 	if !ok {
 		return nil
@@ -364,14 +361,14 @@ func oracleC09(x *Exec) []Finding {
 
 // C08: content of disallowed skip-content elements is removed, everything outside is kept.
 func oracleC08(x *Exec) []Finding {
-	if x.Model.Unsafe {
-		return nil
-	}
 	if _, ok := openStack(x.InToks); !ok {
 		return nil
 	}
+	// script/style are removed outright (tags and body) unless AllowUnsafe(true); with AllowUnsafe they are
+	// ordinary elements and open a skipped region like any other disallowed skip-content element
+	blocked := func(n string) bool { return unsafeName(n) && !x.Model.Unsafe }
 	opener := func(t Tok) bool {
-		return t.T == "start" && !unsafeName(t.N) && !x.Model.Known(t.N) && inSet(x.Model.Skip, t.N) && !VoidEls[t.N]
+		return t.T == "start" && !blocked(t.N) && !x.Model.Known(t.N) && inSet(x.Model.Skip, t.N) && !VoidEls[t.N]
 	}
 	// classify each input token as inside/outside a skipped region
 	var fs []Finding
@@ -423,7 +420,7 @@ func oracleC08(x *Exec) []Finding {
 			if len(m) < 3 || count(m) != 1 {
 				continue
 			}
-			body := i > 0 && (x.InToks[i-1].T == "start" || x.InToks[i-1].T == "self") && unsafeName(x.InToks[i-1].N)
+			body := i > 0 && (x.InToks[i-1].T == "start" || x.InToks[i-1].T == "self") && blocked(x.InToks[i-1].N)
 			if inside[i] && strings.Contains(outText, m) {
 				fs = append(fs, Finding{"C08", "leak-text", fmt.Sprintf("text %q inside a skipped element appears in the output", m)})
 			}
